@@ -103,9 +103,10 @@ PROPS = {
                     "expression exists whenever the operands are acceptable, covers every type the evaluator can produce, and is exact when no "
                     "operand is dynamic -- so a well-typed sub-expression never makes its parent rejected.  METHOD ARGUMENTS: with the right argument "
                     "count, a method call on a statically typed receiver is rejected for its argument types exactly when an argument has a concrete "
-                    "static type different from the documented one (member_arg_rule, expect_member_string_arg, expect_member_number_arg)."),
+                    "static type different from the documented one (member_arg_rule, expect_member_string_arg, expect_member_number_arg).  CONDITIONS AND INDEXES: check_boolean_expr rejects exactly the conditions "
+                    "whose static type can never be boolean/null, the Expr::Index arm exactly the receivers that can never be an array and indexes that can never be a number."),
         "not_covered": ("undeclared-name, call-arity, duplicate-function/parameter and reserved-name rules, which methods exist for which "
-                        "receiver type and their argument count, index and condition operand rules, "
+                        "receiver type and their argument count, "
                         "type tracking across re-declarations, and the recursion of check_expr over sub-expressions (cut at the arm boundary)."),
         "trusted_base": [KANI_TRUST, OS_TRUST, "predeclare_block_functions used through a registration-only contract stub in the check_function_body harness (its HashSet code is outside CBMC's reach)"],
     },
